@@ -76,6 +76,15 @@ def make_points(spec):
             pts.append(c + s * rng.normal(size=(n, d)))
     if i % 5 == 0:   # sparse halo: a low-density record that trim() may drop
         pts.append(rng.uniform(0.05, 0.95, size=(int(rng.integers(d + 2, 25)), d)))
+    if i % 8 == 7:
+        # tight modes near opposite corners: the single initial cube-ellipsoid mixture is the whole unit cube (no
+        # ellipsoidal dimension, log-volume exactly 0) and the first split starts from that degenerate record
+        d = 2 + (i // 8) % 2
+        cls = 'UnitCubeEllipsoidMixture'
+        corners = [[.05, .05], [.95, .95], [.05, .95]] if d == 2 else \
+            [[.05, .05, .05], [.95, .95, .05], [.05, .95, .95], [.95, .05, .95]]
+        k = len(corners)
+        pts = [np.array(c) + 0.02 * rng.normal(size=(int(rng.integers(40, 90)), d)) for c in corners]
     p = np.clip(np.vstack(pts), 1e-6, 1 - 1e-6)
     rng.shuffle(p)
     enlarge = float([1.1, 1.05, 1.5][i % 3])
